@@ -1,12 +1,16 @@
 #!/usr/bin/env python3
-"""Sensitivity helper: plant a one-line change in /repo, run checks, revert.
+"""Sensitivity helper: plant a change in a scratch copy of /repo, run checks against it.
 
-  mut.py [--baseline] <file> <old> <new> -- <PROP> [<PROP>...]
+  mut.py [--baseline] <file> <old> <new> -- <PROP[:tier]> [<PROP>...]
   mut.py [--baseline] --patch <diff> -- <PROP> ...
+  mut.py [--baseline] --revert <commit> -- <PROP> ...
 
-Never leaves /repo modified (git checkout -- . afterwards).
+The change is applied to a fresh git worktree of /repo's HEAD under /tmp (removed afterwards);
+the checks run with VERIF_REPO pointing at it and with their evidence/replays redirected, so
+neither /repo nor /verif/evidence is touched and background runs are not disturbed.
 """
 import os
+import shutil
 import subprocess
 import sys
 
@@ -24,51 +28,45 @@ def main():
         a = a[1:]
     sep = a.index("--")
     spec, props = a[:sep], a[sep + 1:]
-    st = subprocess.run(["git", "-C", REPO, "status", "--porcelain"], capture_output=True, text=True).stdout.strip()
-    if st:
-        print("refusing: /repo is dirty:\n" + st)
-        return 2
-    import shutil
-    import tempfile
-    evid = os.path.join(VERIF, "evidence")
-    keep = tempfile.mkdtemp(prefix="evid-keep-", dir="/dev/shm")
-    if os.path.isdir(evid):
-        shutil.copytree(evid, os.path.join(keep, "evidence"))
+    wt = "/tmp/mutwt-%d" % os.getpid()
+    subprocess.run(["git", "-C", REPO, "worktree", "add", "-q", "--detach", wt, "HEAD"], check=True)
     try:
         if spec[0] == "--revert":
             d = subprocess.run(["git", "-C", REPO, "show", spec[1]], capture_output=True, text=True).stdout
-            r = subprocess.run(["git", "-C", REPO, "apply", "-R", "-"], input=d, text=True)
+            r = subprocess.run(["git", "-C", wt, "apply", "-R", "-"], input=d, text=True)
             if r.returncode != 0:
                 print("cannot revert", spec[1])
                 return 2
         elif spec[0] == "--patch":
-            r = subprocess.run(["git", "-C", REPO, "apply", os.path.abspath(spec[1])])
+            r = subprocess.run(["git", "-C", wt, "apply", os.path.abspath(spec[1])])
             if r.returncode != 0:
                 print("patch does not apply")
                 return 2
         else:
             f, old, new = spec
-            p = os.path.join(REPO, f)
+            p = os.path.join(wt, f)
             s = open(p).read()
             if s.count(old) != 1:
                 print("old text occurs %d times in %s" % (s.count(old), f))
                 return 2
             open(p, "w").write(s.replace(old, new))
+        env = dict(os.environ)
+        env["VERIF_REPO"] = wt
+        env["VERIF_EVIDENCE_DIR"] = os.path.join(wt, ".verif-evidence")
+        env["VERIF_REPLAYS_DIR"] = os.path.join(VERIF, "replays", "mut")
         if baseline:
-            r = subprocess.run(["go", "test", "-vet=off", "-count=1", "./..."], cwd=REPO, env=common.go_env(),
+            r = subprocess.run(["go", "test", "-vet=off", "-count=1", "./..."], cwd=wt, env=common.go_env(),
                                capture_output=True, text=True)
             print("baseline suite with mutant: rc=%d" % r.returncode)
             if r.returncode != 0:
                 print(r.stdout[-3000:])
-        out = {}
         for pr in props:
             tier = "quick"
             if ":" in pr:
                 pr, tier = pr.split(":")
             r = subprocess.run([sys.executable, os.path.join(VERIF, "run.py"), "check", pr, "--tier", tier],
-                               cwd=VERIF, capture_output=True, text=True)
+                               cwd=VERIF, capture_output=True, text=True, env=env)
             lines = [l for l in r.stdout.splitlines() if l.startswith(("VIOLATION", "KNOWN", "OK", "INCONCLUSIVE"))]
-            out[pr] = r.returncode
             print("%s rc=%d %s" % (pr, r.returncode, " | ".join(lines)[:300]))
             if r.returncode == 2:
                 print(r.stderr[-2500:])
@@ -77,14 +75,8 @@ def main():
                 print("   " + "\n   ".join(t[:400] for t in tail[:3]))
         return 0
     finally:
-        subprocess.run(["git", "-C", REPO, "checkout", "--", "."])
-        subprocess.run(["git", "-C", REPO, "clean", "-fdq"])
-        # evidence written while the mutant was planted does not describe the unchanged tree
-        if os.path.isdir(os.path.join(keep, "evidence")):
-            shutil.rmtree(evid, ignore_errors=True)
-            shutil.copytree(os.path.join(keep, "evidence"), evid)
-        shutil.rmtree(keep, ignore_errors=True)
-        # restore evidence of the unchanged tree is the caller's business
+        subprocess.run(["git", "-C", REPO, "worktree", "remove", "--force", wt], capture_output=True)
+        shutil.rmtree(wt, ignore_errors=True)
 
 
 if __name__ == "__main__":
